@@ -1,6 +1,7 @@
 From Coq Require Import ExtrOcamlBasic.
-From GS Require Import Num Loops Summator_gen C12_Model C01_Model.
+From GS Require Import Num Loops Summator_gen C12_Model C01_Model C01_Upscale.
 Extraction "c01_model.ml" proto_anchor
   randmeth_amp get_nugget randmeth_call prod_list fourier_spectrum_factor fourier_k_norm fourier_call
   incompr_call srf_randmeth srf_fourier isometrize sphere2 sphere3 cov_sample
-  gau1_ppf gau2_cdf gau2_ppf exp1_cdf exp1_ppf exp2_cdf exp2_ppf.
+  gau1_ppf gau2_cdf gau2_ppf exp1_cdf exp1_ppf exp2_cdf exp2_ppf
+  var_no_scaling cg_edge cg_factor var_coarse_graining upscale_factor upscale_field.
